@@ -28,6 +28,9 @@ type VM struct {
 
 	// moduleCodeFinder - HOWTO get the source code of a module
 	moduleCodeFinder ModuleCodeFinder
+
+	// evalDepth - number of expressions under evaluation inside one another
+	evalDepth int
 }
 
 type ElementMap = map[string]Element
@@ -100,6 +103,23 @@ func (vm *VM) CheckDepedency(name string) error {
 	}
 	// no existing module found - no dependency problem will be found
 	return nil
+}
+
+// MaxEvalDepth - how many expressions (a method call is one) may be under evaluation
+// inside one another. The evaluator is recursive: without a limit a method that calls
+// itself for ever overflows the stack of the host process, which no recover() can catch.
+const MaxEvalDepth = 100000
+
+// EnterEval - one more expression is being evaluated inside the current ones;
+// false when MaxEvalDepth is exceeded. Always paired with LeaveEval (deferred).
+func (vm *VM) EnterEval() bool {
+	vm.evalDepth++
+	return vm.evalDepth <= MaxEvalDepth
+}
+
+// LeaveEval -
+func (vm *VM) LeaveEval() {
+	vm.evalDepth--
 }
 
 // PushCallFrame - push a call frame onto the call stack
